@@ -9,8 +9,10 @@
     the source connection ID of the packets, tls.Config.ServerName, then the observables: the
     spec's parameter list / key shares / server name AFTER the dial, extension 57 as read off
     the wire, server_name on the wire.
-    [NilSpec]: first flight of UTransport{QUICSpec: nil} and of Transport (datagram sizes,
-    transport parameters): the model of u_dial None is plain_dial, so they must agree.
+    [NilSpec]: first flight of UTransport{QUICSpec: nil} and of Transport under the same (random)
+    Config: datagram sizes, transport parameters, and a feature list (packet numbers and their
+    lengths, ClientHello extension ids in order, key share groups and lengths, cipher suites, SNI /
+    source connection ID / token lengths): the model of u_dial None is plain_dial, so they agree.
     [Retx]: the real uPacketPacker driven packet by packet (harness/quic/udial.go): the first
     flight as (packet number, CRYPTO frames), then losses / acknowledgements through the frames'
     own handlers and packing calls (regular, PTO probe, PTO probe with addPingIfEmpty), each with
@@ -20,6 +22,7 @@
 From Coq Require Import List ZArith Bool String.
 From V Require Import Gen.Params Lib.Hex Wire.Varint USpec.Model UDial.Model.
 From V Require Export UDial.Retx.   (* the harness prints rop / rres constructors *)
+From V Require Import UDial.Reg.
 Import ListNotations.
 Open Scope Z_scope.
 
@@ -33,10 +36,24 @@ Inductive step :=
        (after : list rp) (afterKeys : list (Z * Z)) (afterSNI : string)
        (wire : list (Z * string)) (wsni : string).
 
+(* Reg: ONE UTransport, dials through the real doDial with closes and pauses; after every step,
+   for every source connection ID used so far (0 = the empty ID, else 0x01 || bytes as a number):
+   (ID, kind, owner) with kind 0 = no entry, 1 = live connection of dial [owner], 2 = a
+   closed-connection handler. GWaitShort is shorter than any expiry, GWaitLong longer than all. *)
+Inductive regop :=
+| GDial (k id : Z) (ok : bool)
+| GClose (k id : Z)
+| GDestroy (k id : Z)
+| GWaitShort
+| GWaitLong.
+Inductive regstep := GStep (o : regop) (obs : list (Z * Z * Z)).
+
 Inductive case :=
 | Seq (ps0 : list rp) (keys0 : list (Z * Z)) (sni0 : string) (steps : list step)
-| NilSpec (sizesU : list Z) (tpU : list (Z * string)) (sizesP : list Z) (tpP : list (Z * string))
-| Retx (n : Z) (planned : bool) (layout : option (list lframe)) (flight : list (Z * list (Z * Z))) (ops : list rop).
+| NilSpec (sizesU : list Z) (tpU : list (Z * string)) (featU : list Z)
+          (sizesP : list Z) (tpP : list (Z * string)) (featP : list Z)
+| Retx (n : Z) (planned : bool) (layout : option (list lframe)) (flight : list (Z * list (Z * Z))) (ops : list rop)
+| Reg (steps : list regstep).
 
 (* per dial: spec after the dial (parameters, key shares as (group, |Data|), server name),
    extension 57 as a reader sees it, server_name *)
@@ -106,16 +123,46 @@ Fixpoint retx_ok (planned : bool) (layout : option (list lframe)) (st : rstate) 
         ranges_eqb (rQueue st) before && ranges_eqb (rQueue st') after && rres_eqb res obs &&
         path_ok layout (marshal_path planned layout popped) aspacked &&
         retx_ok planned layout st' r
+      | RCoalesce before popped after aspacked count obs =>
+        ranges_eqb (rQueue st) before && ranges_eqb (rQueue st') after && rres_eqb res obs &&
+        path_ok layout (marshal_path planned layout popped) aspacked &&
+        (count =? coalesced_count popped false true) &&
+        retx_ok planned layout st' r
       | _ => retx_ok planned layout st' r
       end
     end
   end.
 
+Definition reg_apply (st : rgstate) (o : regop) : rgstate :=
+  match o with
+  | GDial k id _ => rgstep st (RgDial k id)
+  | GClose k id => rgstep st (RgClose k id)
+  | GDestroy k id => rgstep st (RgDestroy k id)
+  | GWaitShort => st
+  | GWaitLong => expire_all st
+  end.
+Definition reg_obs_ok (st : rgstate) (x : Z * Z * Z) : bool :=
+  let '(id, kind, owner) := x in
+  match route st id with
+  | None => kind =? 0
+  | Some (Live k) => (kind =? 1) && (owner =? k)
+  | Some (Tomb _) => kind =? 2
+  end.
+Fixpoint reg_ok (st : rgstate) (steps : list regstep) : bool :=
+  match steps with
+  | [] => true
+  | GStep o obs :: r =>
+    let st' := reg_apply st o in
+    (match o with GDial _ _ ok => ok | _ => true end) &&   (* registered => the replies arrive *)
+    forallb (reg_obs_ok st') obs && reg_ok st' r
+  end.
+
 Definition model_obs (c : case) : obs :=
   match c with
   | Seq ps0 keys0 sni0 steps => replay (Spec (mkps ps0) None (map mkkey keys0) (hx sni0) [] false) steps
-  | NilSpec _ _ _ _ => ONil
+  | NilSpec _ _ _ _ _ _ => ONil
   | Retx n planned layout flight ops => ORetx (retx_ok planned layout (RS flight [] []) ops)
+  | Reg steps => ORetx (reg_ok (RG [] []) steps)
   end.
 
 Definition param_eqb (a b : param) : bool :=
@@ -164,7 +211,8 @@ Fixpoint steps_ok (m : list step_obs) (s : list step) : bool :=
 Definition check_case (c : case) : bool :=
   match c, model_obs c with
   | Seq _ _ _ steps, OSeq l => steps_ok l steps
-  | NilSpec su tu sp tp, ONil => zeqb_list su sp && zs_eqb_str tu tp
+  | NilSpec su tu fu sp tp fp, ONil => zeqb_list su sp && zs_eqb_str tu tp && zeqb_list fu fp
   | Retx _ _ _ _ _, ORetx ok => ok
+  | Reg _, ORetx ok => ok
   | _, _ => false
   end.
